@@ -104,14 +104,23 @@ fn gff_dialect(i: usize) -> (gff::GffType, &'static str, &'static [u8]) {
 
 fn gen_gff(rng: &mut Rng, excl: &[u8], allow_empty_value: bool) -> GffRec {
     let mut attrs: Vec<(String, Vec<String>)> = vec![];
-    for _ in 0..rng.below(5) {
+    // now and then a record with dozens of (key, value) pairs
+    let rich = rng.chance(1, 12);
+    let nkeys = if rich { rng.range(3, 18) as u64 } else { rng.below(5) };
+    for _ in 0..nkeys {
         let mut ex = excl.to_vec();
         ex.push(b' ');
         let k = text(rng, 1, 6, &ex, false);
         if attrs.iter().any(|(kk, _)| *kk == k) {
             continue;
         }
-        let nv = if rng.chance(1, 3) { rng.range(2, 4) } else { 1 };
+        let nv = if rich {
+            rng.range(1, 9)
+        } else if rng.chance(1, 3) {
+            rng.range(2, 4)
+        } else {
+            1
+        };
         let vs = (0..nv)
             .map(|_| if allow_empty_value && rng.chance(1, 3) { String::new() } else { text(rng, 1, 7, &ex, false) })
             .collect();
